@@ -1027,9 +1027,21 @@ func ConvertZToMinMaxAltitudekey(inputIndex int64, inputZoom int64, outputZoom i
 	if err != nil {
 		return 0, 0, err
 	}
-	upperBound, err := convertZToMinAltitudekey(inputIndex+1, inputZoom, outputZoom, zBaseExponent, zBaseOffset)
-	if err != nil {
-		return 0, 0, err
+	// the upper bound is the first key at or above the top of the voxel: the top altitude is rounded up (ceiling),
+	// so that no altitude of the voxel is lost when it does not fall on a key boundary. inputIndex+1 is an
+	// altitude boundary, not an input index, so it is not validated as one.
+	upperBound := inputIndex + 1
+	upperShift := outputZoom - zBaseExponent
+	if zoomDifference := consts.ZOriginValue - inputZoom; zoomDifference >= 0 {
+		upperBound = common.CalculateArithmeticShift(upperBound, zoomDifference) + zBaseOffset
+	} else {
+		// sub-metre voxel: bring the offset to the voxel's scale instead of rounding the voxel to whole metres
+		upperBound += common.CalculateArithmeticShift(zBaseOffset, -zoomDifference)
+		upperShift += zoomDifference
+	}
+	upperBound = ceilArithmeticShift(upperBound, upperShift)
+	if _, ok := validateIndexExists(upperBound-1, outputZoom, false); !ok {
+		return 0, 0, errors.NewSpatialIdError(errors.InputValueErrorCode, "output index does not exist with given outputZoom, zBaseExponent, and zBaseOffset")
 	}
 
 	// Determine the vertical index/indices to return.
@@ -1045,6 +1057,11 @@ func ConvertZToMinMaxAltitudekey(inputIndex int64, inputZoom int64, outputZoom i
 	} else {
 		return minAltitudeKey, maxAltitudeKey, nil
 	}
+}
+
+// ceilArithmeticShift is common.CalculateArithmeticShift rounding up instead of down: ceil(index * 2^shift)
+func ceilArithmeticShift(index int64, shift int64) int64 {
+	return -common.CalculateArithmeticShift(-index, shift)
 }
 
 func convertZToMinAltitudekey(inputIndex int64, inputZoom int64, outputZoom int64, zBaseExponent int64, zBaseOffset int64) (int64, error) {
